@@ -1990,7 +1990,7 @@ class Interp:
                 bound = n.self_av is not None
                 if bound:
                     a = [n.self_av, *a]
-                outs.append(self.call_function(n.fi, a, kwargs, fr, e, bound=bound, closure=n.closure, star=star))
+                outs.append(self.call_function(n.fi, a, kwargs, fr, e, bound=bound, closure=n.closure, star=star, direct=bool(n.key) and n.key[0] == "super"))
             elif isinstance(n, Cls):
                 outs.append(self.construct(n.ci, args, kwargs, fr, e, tag))
             elif isinstance(n, Lib):
@@ -2037,10 +2037,10 @@ class Interp:
                 self.call_function(post, [ref(r)], {}, fr, e, bound=True)
         return ref(r)
 
-    def call_function(self, fi: FuncInfo, args: list[AV], kwargs: dict, fr: Frame, e: ast.AST, bound: bool = False, closure: dict | None = None, star: list | None = None) -> AV:
+    def call_function(self, fi: FuncInfo, args: list[AV], kwargs: dict, fr: Frame, e: ast.AST, bound: bool = False, closure: dict | None = None, star: list | None = None, direct: bool = False) -> AV:
         if fi.fq in self._stack or fr.depth > MAXDEPTH:
             return self.unknown_value(f"recursive call of {fi.qualname}", *args)
-        if fi.is_abstract:
+        if fi.is_abstract and not direct:
             impls = [m for m in self.repo.implementations(fi.cls, fi.name) if not m.is_abstract] if fi.cls is not None else []
             if not impls:
                 return self.unknown_value(f"abstract {fi.qualname}", *args)
